@@ -141,6 +141,8 @@ impl InstructionWithStr {
 
 impl Exec for InstructionWithStr {
     fn exec(&self, interpreter: &mut Interpreter) -> ExecResult {
+        #[cfg(feature = "verif")]
+        let _src = crate::verif::src_scope(&self.str);
         self.instruction.exec(interpreter)
     }
 }
@@ -264,6 +266,12 @@ impl Instruction {
 
 impl Exec for Instruction {
     fn exec(&self, interpreter: &mut Interpreter) -> ExecResult {
+        #[cfg(feature = "verif")]
+        if crate::verif::enter_exec() {
+            let result = self.exec(interpreter);
+            crate::verif::observe_exec(self, &result);
+            return result;
+        }
         match_any! { self,
             Self::Variable(var) => Ok(var.clone()),
             Self::LocalVariable(ident, _) => interpreter
